@@ -62,15 +62,56 @@ def u_expression(c):
     out = c.call(c.fn(M, "_Expression.generate"), node, w)
     c.only_raises(out, ())
     c.cover("expr/%s/%s" % (raw, ae))
-    want = ["_tt_tmp = %s" % expr, "if isinstance(_tt_tmp, _tt_string_types): _tt_tmp = _tt_utf8(_tt_tmp)", "else: _tt_tmp = _tt_utf8(str(_tt_tmp))"]
     escaped = (not raw) and ae is not None
-    if escaped:
-        want.append("_tt_tmp = _tt_utf8(%s(_tt_tmp))" % ae)
-    want.append("_tt_append(_tt_tmp)")
-    got = _lines(buf)
-    c.values = {"emitted": got}
-    c.oblige("post/exactly-the-conversion-lines-the-escape-line-iff-escaping-is-in-force-and-the-append", got == want)
-    c.oblige("post/nothing-is-appended-before-the-escape-line", (not escaped) or got.index("_tt_append(_tt_tmp)") > got.index("_tt_tmp = _tt_utf8(%s(_tt_tmp))" % ae))
+    # the contract is on what the emitted lines DO, not on their wording: run them on adversarial values with a tracing escape function
+    import textwrap
+    import tornado.escape as E
+    src = "def _snippet():\n" + textwrap.indent(textwrap.dedent(buf.getvalue()), "    ") + "\n"
+    bad = []
+    for label, value in adversarial_values():
+        calls, appended = [], []
+
+        def tracer(v):
+            calls.append(v)
+            return b"<<" + E.utf8(v).replace(b"<", b"&lt;").replace(b"&", b"+") + b">>" if isinstance(v, bytes) else "<<%s>>" % v
+        env = {"_tt_utf8": E.utf8, "_tt_string_types": (str, bytes), "_tt_append": appended.append, "value": value, "_tt_modules": type("Mods", (), {"Entry": staticmethod(lambda e: value)})(), "e": None,
+               "xhtml_escape": tracer, "my_escape": tracer, "_tt_number_types": (int, float)}
+        try:
+            exec(compile(src, "<emitted>", "exec"), env)
+            env["_snippet"]()
+        except Exception as ex:
+            bad.append((label, "raised %s: %s" % (type(ex).__name__, ex)))
+            continue
+        conv = value if isinstance(value, bytes) else (value.encode("utf-8") if isinstance(value, str) else str(value).encode("utf-8"))
+        if escaped:
+            want = [E.utf8(tracer(conv))]
+            calls.pop()
+            if appended != want or calls != [conv]:
+                bad.append((label, "appended %r after escape calls %r; expected the escape function applied once to the whole converted value" % (appended, calls)))
+        elif appended != [conv] or calls:
+            bad.append((label, "appended %r (escape calls %r); expected the converted value as it is" % (appended, calls)))
+    c.values = {"emitted": _lines(buf), "failing": bad[:3]}
+    c.oblige("post/the-emitted-code-appends-exactly-the-value-converted-and-escaped-iff-escaping-is-in-force-whatever-its-type", not bad)
+
+
+class EvilInt(int):
+    def __str__(self):
+        return "<i>int&\"</i>"
+    __repr__ = __str__
+
+
+class EvilFloat(float):
+    def __str__(self):
+        return "<i>float&\"</i>"
+    __repr__ = __str__
+
+
+def adversarial_values():
+    class Obj:
+        def __str__(self):
+            return "<obj>&\"'"
+    return [("str", "<b>&\"'</b>"), ("non-ascii str", "é<€>"), ("bytes", b"<by>&\"\xc3\xa9"), ("object", Obj()), ("int subclass", EvilInt(3)), ("float subclass", EvilFloat(1.5)), ("plain int", 7),
+            ("bool", True), ("None", None), ("list", ["<li>", Obj()]), ("empty str", ""), ("tuple", ("<t>",)), ("dict", {"<k>": "<v>"})]
 
 
 @unit("C20", "_CodeWriter.include", [(M, "_CodeWriter.include"), (M, "_NamedBlock.generate"), (M, "_IncludeBlock.generate")])
@@ -183,9 +224,9 @@ def standin(tier, seed):
         ns = c19.make_namespace()
         # every value an expression can show carries markup
         ns.update(name="<b>n&\"'</b>", uni="é<u>&", bs=b"<by>&\"tes\xc3\xa9", obj=Evil("o"), d={"k": "<v>&"}, items=["<1>", Evil("it"), b"<2>&"], pairs=[("<a>", Evil("p")), ("b&", "<2>")],
-                  x=5, none=None, flag=True)
+                  x=EvilInt(5), none=None, flag=True)
         return ns
-    RAW_MARKERS = ["<b>n&\"'</b>", "é<u>&", "<by>&\"tes", "<i>o&\"'</i>", "<v>&", "<1>", "<i>it&\"'</i>", "<2>&", "<a>", "<i>p&\"'</i>", "<2>"]
+    RAW_MARKERS = ["<i>int&\"</i>", "<b>n&\"'</b>", "é<u>&", "<by>&\"tes", "<i>o&\"'</i>", "<v>&", "<1>", "<i>it&\"'</i>", "<2>&", "<a>", "<i>p&\"'</i>", "<2>"]
     try:
         for it in range(N):
             g = c19.Gen(rng)
@@ -198,6 +239,14 @@ def standin(tier, seed):
             if inc_dir != "unset":
                 inc.insert(rng.randint(0, len(inc)), ("autoescape", inc_dir))
                 inc = c19.safe_join(inc)
+            inc2 = None
+            if rng.random() < 0.5:
+                # a second level: the included file includes another one with a setting of its own, and goes on with expressions of its own afterwards
+                inc2 = c19.safe_join(g.body(1, False, n=rng.randint(1, 2), allow_blocks=False) + [("expr", "name", False)])
+                d2 = rng.choice([None, "xhtml_escape", "unset"])
+                if d2 != "unset":
+                    inc2 = c19.safe_join([("autoescape", d2)] + inc2)
+                inc = c19.safe_join(inc + [("include", "inc2.txt"), ("expr", "name", False), ("expr", "obj", False)])
             base = g.body(0, False, n=rng.randint(2, 5))
             base.insert(rng.randint(0, len(base)), ("block", "main", g.body(1, False, n=2, allow_blocks=False)))
             base.insert(rng.randint(0, len(base)), ("include", "inc.txt"))
@@ -215,6 +264,8 @@ def standin(tier, seed):
             rng.shuffle(child)
             child = c19.safe_join(child)
             files = {"base.html": base, "inc.txt": inc, "child.html": child}
+            if inc2 is not None:
+                files["inc2.txt"] = inc2
             name = rng.choice(["base.html", "child.html"])
             texts = {n: c19.render(t, rng) for n, t in files.items()}
             evals += 1
